@@ -58,6 +58,10 @@ type pgPortal struct {
 	params        [][]byte
 	paramFormats  []int16
 	resultFormats []int16
+	// a portal executed with a row limit keeps the rows it has not sent yet
+	started bool
+	rest    []pgproto3.BackendMessage
+	tag     string
 }
 
 func NewPGDB() *PGDB {
@@ -1332,15 +1336,28 @@ func (db *PGDB) Respond(msgs []pgproto3.FrontendMessage) []pgproto3.BackendMessa
 					fail(sqlErr("34000", "portal %q does not exist", m.Portal))
 					continue
 				}
-				rs, err := db.exec(po.prep.stmt, po)
-				if err != nil {
-					fail(err)
+				if !po.started {
+					rs, err := db.exec(po.prep.stmt, po)
+					if err != nil {
+						fail(err)
+						continue
+					}
+					po.started, po.tag = true, rs.tag
+					if rs.cols != nil {
+						po.rest = dataRows(rs, po.resultFormats)
+					}
+				}
+				// Execute with a row limit: that many rows, then PortalSuspended (the portal is
+				// complete only when fewer rows than the limit were left)
+				if n := int(m.MaxRows); n > 0 && len(po.rest) >= n {
+					out = append(out, po.rest[:n]...)
+					po.rest = po.rest[n:]
+					out = append(out, &pgproto3.PortalSuspended{})
 					continue
 				}
-				if rs.cols != nil {
-					out = append(out, dataRows(rs, po.resultFormats)...)
-				}
-				out = append(out, &pgproto3.CommandComplete{CommandTag: []byte(rs.tag)})
+				out = append(out, po.rest...)
+				po.rest = nil
+				out = append(out, &pgproto3.CommandComplete{CommandTag: []byte(po.tag)})
 			case *pgproto3.Close:
 				if m.ObjectType == 'S' {
 					delete(db.stmts, m.Name)
